@@ -266,6 +266,8 @@ impl<T> Receiver<T> {
   /// The internal logic for closing/dropping a receiver handle.
   fn close_internal(&self) {
     self.shared.mark_receiver_dropped();
+    #[cfg(all(not(loom), excsn_fibre_verif))]
+    crate::verif::point(crate::verif::Kind::Custom);
 
     // If a value was sent (STATE_SENT) but never taken, we must drop it.
     if self
